@@ -41,13 +41,49 @@ Theorem C02_isolated : forall T w sh v data data', placement T w sh -> unit_ok T
 Proof. exact isolated. Qed.
 Print Assumptions C02_isolated.
 
+(* the same inside the enclosing object `mem` (any struct/union content around the unit, which
+   sits at byte offset `off`): an accepted write keeps the object's length, every byte outside the
+   unit and every bit of the unit outside [sh, sh+w), and reads back v; a rejected one returns
+   the object unchanged *)
+Theorem C02_isolated_object : forall T w sh v off mem, placement T w sh ->
+  (off + isize T <= List.length mem)%nat -> bytes_ok mem ->
+  let r := bf_write_at T w sh v off mem in
+  if acceptb (isigned T) w v then
+    fst r = BOk tt /\
+    List.length (snd r) = List.length mem /\
+    (forall j d, (j < off \/ off + isize T <= j)%nat -> nth j (snd r) d = nth j mem d) /\
+    (forall i, 0 <= i -> ~ (sh <= i < sh + w) ->
+       Z.testbit (read_raw_unsigned (unit_at off (isize T) (snd r))) i =
+       Z.testbit (read_raw_unsigned (unit_at off (isize T) mem)) i) /\
+    bf_read_at T w sh off (snd r) = BOk (if isigned T && (w =? 1) && (v =? 1) then -1 else v)
+  else r = (BErr OverflowError, mem).
+Proof. exact isolated_object. Qed.
+Print Assumptions C02_isolated_object.
+
+(* acceptb is the boolean form of `accepted` *)
+Theorem C02_acceptb_spec : forall sg w v, 1 <= w -> acceptb sg w v = true <-> accepted sg w v.
+Proof. exact acceptb_spec. Qed.
+Print Assumptions C02_acceptb_spec.
+
+(* _Bool fields.  C and gcc only admit width 1 ("width exceeds its type" otherwise), so the
+   property's class contains `_Bool x:1` only; there the accepted values are exactly {0, 1}.
+   (cffi's cdef also accepts `_Bool x:3`, which no C compiler does; the code then treats it as a
+   3-bit unsigned field, which is what the general theorems say about it.) *)
+Theorem C02_bool_field : forall T sh v data, placement T 1 sh -> ibool T = true -> unit_ok T data ->
+  (exists data', bf_write T 1 sh v data = (BOk tt, data')) <-> (v = 0 \/ v = 1).
+Proof. exact bool_field. Qed.
+Print Assumptions C02_bool_field.
+
 (* an out-of-range v raises OverflowError and changes nothing *)
 Theorem C02_reject_pure : forall T w sh v data, placement T w sh -> unit_ok T data ->
   ~ accepted (isigned T) w v -> bf_write T w sh v data = (BErr OverflowError, data).
 Proof. exact reject_pure. Qed.
 Print Assumptions C02_reject_pure.
 
-(* the value read is the value C reads from the same storage *)
+(* the value read is the value C reads from the same storage: c_bitfield_value (C02/Spec.v) is the
+   two's-complement reading of bits [sh, sh+w) of the little-endian unit, i.e. gcc's x86-64
+   convention written down independently of the model; that gcc really reads this value is
+   checked on every run against a gcc-compiled accessor (no C semantics is available in Coq here) *)
 Theorem C02_reads_like_C : forall T w sh data, placement T w sh -> unit_ok T data ->
   bf_read T w sh data = BOk (c_bitfield_value (isigned T) w sh (read_raw_unsigned data)).
 Proof. exact read_like_C. Qed.
